@@ -74,6 +74,7 @@ impl<'a> Session<'a> {
     /// finalize under all 32 option sets, plus finalize() (default options)
     pub fn fin(&mut self, i: usize) {
         let mut fan = String::from("[");
+        let mut rt: Vec<u8> = Vec::new();
         let mut allocs = 0;
         let mut panic = String::new();
         for o in 0..32u8 {
@@ -85,7 +86,21 @@ impl<'a> Session<'a> {
             if o > 0 {
                 fan.push(',');
             }
-            fan.push_str(&res_json(&r.v.unwrap_or(Err("PANIC".into()))));
+            let rv = r.v.unwrap_or(Err("PANIC".into()));
+            // round trip of a generated hash through this build's parsers (strict in strict builds)
+            rt.push(match &rv {
+                Ok(img) => match self.v.hash(img) {
+                    Some(h) => {
+                        let mut buf = vec![0u8; self.v.len_str()];
+                        let _ = h.store_str(&mut buf, true);
+                        let back = self.v.parse_bytes(&buf, "None").v.unwrap_or(Err("PANIC".into()));
+                        if back.as_ref() == Ok(img) { 1 } else { 0 }
+                    }
+                    None => 0,
+                },
+                Err(_) => 2,
+            });
+            fan.push_str(&res_json(&rv));
         }
         fan.push(']');
         let d = self.g(i).fin_default();
@@ -100,6 +115,7 @@ impl<'a> Session<'a> {
                 .num("g", i as i64)
                 .raw("fan", &fan)
                 .raw("def", &res_json(&d.v.unwrap_or(Err("PANIC".into()))))
+                .bytes("rt", &rt)
                 .raw("st", &st)
                 .raw("plen", &opt_wide_json(pl.v.unwrap_or(None)))
                 .meas(allocs + pl.a, &panic),
